@@ -28,7 +28,7 @@ m = {
     "setup_cmd": "./check --setup",
     "hooks": {
         "guard": "sighook_verif",
-        "enable": "RUSTFLAGS=\"--cfg sighook_verif\" (set by ./check for cargo kani); the harness workspace /verif/kani replaces the libc crate by /verif/vlibc via [patch.crates-io] (kernel model + scheduler shim); /verif/kani17 (C17) builds without the guard",
+        "enable": "RUSTFLAGS=\"--cfg sighook_verif\" (set by ./check for cargo kani); the harness workspace /verif/kani replaces the libc crate by /verif/vlibc via [patch.crates-io] (kernel model + scheduler shim); /verif/kani17 (C17) builds without the guard; when the instrumented build does not compile against a changed /repo, ./check retries with the additional --cfg sighook_verif_nostate, which only affects /verif/shim/registry_api.rs (accessors naming private fields of SignalData become a marker panic)",
         "baseline_off_cmd": "cd /repo && cargo test --workspace --no-fail-fast --offline",
         "source_commits": HOOK_COMMITS,
         "add_only": True,
